@@ -1308,6 +1308,15 @@ def check_C11(ctx, rep):
                                                 (strip_sites(f2[2][0]) == rs or show(f2[2][0]).lstrip('&*') == show(rs).lstrip('&*')) for f2 in S))
             rep.ob('C11.R5', fs, 'unwrap-behind-is_err', ok and bool(st), 'unwrap(%s)' % shape(a[0]))
     rep.count_exact('C11.R5', 'str slices in from_str', n_sl, 2)
+    # the right version is accepted: parsing goes on past the version test exactly when the prefix EQUALS the formatted VERSION
+    des_b = [b for (b, f, a, t) in calls(fa) if callee_str(f).endswith('Engine::decode')]
+    if des_b:
+        sts = pf.at_entry(des_b[0])
+        vers = lambda e: contains(e, lambda y: is_call(y, 'fmt::format') or is_call(y, 'alloc::fmt::format'))
+        okv, w = all_paths(sts, lambda S: any((f[0] == 'bcall' and (f[1].endswith('PartialEq>::ne') or f[1].endswith('PartialEq::ne') or f[1].endswith('::ne')) and f[3] is False and any(vers(x) for x in f[2])) or
+                                             (f[0] == 'bcall' and (f[1].endswith('PartialEq>::eq') or f[1].endswith('PartialEq::eq') or f[1].endswith('::eq')) and f[3] is True and any(vers(x) for x in f[2])) or
+                                             (f[0] == 'cmp' and ((f[1] == 'ne' and f[5] is False) or (f[1] == 'eq' and f[5] is True)) and (vers(f[2]) or vers(f[3]))) for f in S))
+        rep.ob('C11.R5', fs, 'decoding-only-behind-an-equal-version-prefix', okv and bool(sts), '' if okv else 'witness: ' + show_facts(w))
     # ---- R6 v1 parser
     v1 = [prog.fn_opt(FW, None, n) for n in ('parse_v1_machine', 'parse_v1', 'parse_state', 'parse_dist')]
     undis = []
